@@ -27,6 +27,7 @@ import XzVerif.Props.C01
 import XzVerif.Props.C02
 import XzVerif.Props.C15
 import XzVerif.Props.C16
+import XzVerif.Props.C03Container
 import XzVerif.Lemmas.E2EContainer
 import XzVerif.Lemmas.E2EAlone
 import XzVerif.Lemmas.E2EExample
@@ -86,10 +87,10 @@ theorem supported_checks (c : Nat) : checkIsSupported c = true ↔ c = 0 ∨ c =
 
 theorem grammar_of_decode (fl : Flags) (out : List UInt8) (cap : Nat) (data : List UInt8) (ev : List Ret)
     (h : xzDecode stdEnv fl out cap = { ret := .streamEnd, out := data, consumed := out.length, events := ev }) :
-    ValidXz stdEnv fl out cap data out.length := by
+    ValidXz stdEnv fl out cap data out.length ∧ DValidXz stdEnv fl out cap data out.length := by
   have hv := validXz_of_xzDecode stdEnv fl out cap (by rw [h])
   rw [h] at hv
-  exact hv
+  exact ⟨hv, (C03Container.xz_decode_exact_std fl out cap data out.length).mp ⟨by rw [h], by rw [h], by rw [h]⟩⟩
 
 /-- **xz_roundtrip_std** (multi-call encoder `lzma_stream_encoder`: one Block per non-empty piece, LZMA_FULL_FLUSH between
     the pieces, LZMA_FINISH at the end).  For every supported chain, every Check the encoder accepts (None, CRC32, CRC64,
@@ -97,17 +98,15 @@ theorem grammar_of_decode (fl : Flags) (out : List UInt8) (cap : Nat) (data : Li
     whatever the encoder model — container model over the LZMA2 chunker model over the filter models — returns with LZMA_OK is
     decoded by the decoder model — container decoder over the executable LZMA2 decoder over the filter decoders — with
     LZMA_STREAM_END to exactly the concatenation of the pieces, consuming every byte, for every decoder flag combination and
-    any output space that holds the data; and the file is an instance of the .xz grammar `ValidXz`.
-    (The declarative grammar `DValidXz` of Props/C03Container.lean follows from the first conjunct by
-    `C03Container.xz_decode_exact_std`; it cannot be stated HERE because Lemmas/XzGrammar.lean and Lemmas/XzEncodeDec.lean both
-    define `XzDecode.blockDecode_complete` …, so Props/C02 and Props/C03Container cannot be imported into one file.) -/
+    any output space that holds the data; and the file is an instance of both .xz grammars: `ValidXz`, and the DECLARATIVE
+    grammar `DValidXz` of Props/C03Container.lean, which does not mention the Block decoder (via `xz_decode_exact_std`). -/
 theorem xz_roundtrip_std (p : Lzma.Props) (parser : Parser) (cfg : Cfg) (blocks : List (List UInt8)) (out : List UInt8)
     (fl : Flags) (cap : Nat) (hfs : xzChain p cfg.filters = true)
     (hin : ∀ d ∈ blocks, d ≠ [] → GoodInput p parser cfg.filters d)
     (henc : streamEncodeST (stdEncEnv p parser) cfg blocks = .ok out) (hcap : blocks.flatten.length ≤ cap) :
     xzDecode stdEnv fl out cap
       = { ret := .streamEnd, out := blocks.flatten, consumed := out.length, events := headerEvents stdEnv fl cfg.check }
-    ∧ ValidXz stdEnv fl out cap blocks.flatten out.length := by
+    ∧ ValidXz stdEnv fl out cap blocks.flatten out.length ∧ DValidXz stdEnv fl out cap blocks.flatten out.length := by
   obtain ⟨hw, n, hchain⟩ := xzChain_wf p cfg.filters hfs
   have h := streamEncodeST_decodes_on stdEnv (stdEncEnv p parser) cfg blocks out fl cap n hw hchain (check_agrees_std p parser)
     (GoodInput p parser cfg.filters) (payload_contract_std_on p parser cfg.filters hfs) hin henc hcap
@@ -122,12 +121,12 @@ theorem xz_roundtrip_std_buffer (p : Lzma.Props) (parser : Parser) (cfg : Cfg) (
     (henc : streamBufferEncode (stdEncEnv p parser) cfg data avail = .ok out) (hcap : data.length ≤ cap) :
     xzDecode stdEnv fl out cap
       = { ret := .streamEnd, out := data, consumed := out.length, events := headerEvents stdEnv fl cfg.check }
-    ∧ ValidXz stdEnv fl out cap data out.length ∧ out.length ≤ avail := by
+    ∧ ValidXz stdEnv fl out cap data out.length ∧ DValidXz stdEnv fl out cap data out.length ∧ out.length ≤ avail := by
   obtain ⟨hw, n, hchain⟩ := xzChain_wf p cfg.filters hfs
   obtain ⟨h, hle⟩ := streamBufferEncode_decodes_on stdEnv (stdEncEnv p parser) cfg data out avail fl cap n hw hchain
     (check_agrees_std p parser) (GoodInput p parser cfg.filters) (payload_contract_std_on p parser cfg.filters hfs)
     uncomp_contract_std hin henc hcap
-  exact ⟨h, grammar_of_decode fl out cap _ _ h, hle⟩
+  exact ⟨h, (grammar_of_decode fl out cap _ _ h).1, (grammar_of_decode fl out cap _ _ h).2, hle⟩
 
 /-- **xz_roundtrip_std** for the container part of the threaded encoder (`lzma_stream_encoder_mt`: a new Block every
     `blockSize` bytes and at every flush, Block Headers with both size fields written late into reserved space, per-Block
@@ -139,7 +138,7 @@ theorem xz_roundtrip_std_mt (p : Lzma.Props) (parser : Parser) (cfg : Cfg) (bloc
     (henc : streamEncodeMT (stdEncEnv p parser) cfg blockSize pieces = .ok out) (hcap : pieces.flatten.length ≤ cap) :
     xzDecode stdEnv fl out cap
       = { ret := .streamEnd, out := pieces.flatten, consumed := out.length, events := headerEvents stdEnv fl cfg.check }
-    ∧ ValidXz stdEnv fl out cap pieces.flatten out.length := by
+    ∧ ValidXz stdEnv fl out cap pieces.flatten out.length ∧ DValidXz stdEnv fl out cap pieces.flatten out.length := by
   obtain ⟨hw, n, hchain⟩ := xzChain_wf p cfg.filters hfs
   have h := streamEncodeMT_decodes_on stdEnv (stdEncEnv p parser) cfg blockSize pieces out fl cap n hw hchain
     (check_agrees_std p parser) (GoodInput p parser cfg.filters) (payload_contract_std_on p parser cfg.filters hfs)
